@@ -6,6 +6,7 @@ import (
 	"time"
 
 	"github.com/jamespfennell/gtfs"
+	"github.com/jamespfennell/gtfs/warnings"
 
 	"verif/gen"
 	"verif/sim"
@@ -224,7 +225,8 @@ func runC09(t *sim.T, tier string) *sim.Violation {
 	}
 	for _, w := range base.Warnings {
 		if w.RowNumber >= 1 {
-			panic(fmt.Sprintf("harness: well-formed base feed produced a row-level warning: %s row %d", w.File, w.RowNumber))
+			// a warning about a row the parser keeps (none exist today): tolerated, checked for consistency below
+			t.Probe("base-has-row-level-warning")
 		}
 	}
 	twin := sim.Dump(base, staticNoWarn)
@@ -289,8 +291,15 @@ func runC09(t *sim.T, tier string) *sim.Violation {
 			rows := injectedAt[string(w.File)]
 			want, ok := rows[w.RowNumber]
 			if !ok {
-				return &sim.Violation{Class: "warning", Signature: "C09:warning-wrong-row:" + string(w.File),
-					Detail: fmt.Sprintf("%s: warning %q names %s row %d, which is not a rejected row (rejected rows: %v)", desc, w.Kind.Error(), w.File, w.RowNumber, keysOf(rows))}
+				_, rejectedKind := w.Kind.(warnings.AgencyMissingValues)
+				tb := f.Table(string(w.File))
+				if rejectedKind || tb == nil || w.RowNumber > len(tb.Rows) {
+					return &sim.Violation{Class: "warning", Signature: "C09:warning-wrong-row:" + string(w.File),
+						Detail: fmt.Sprintf("%s: warning %q names %s row %d, which is not a rejected row (rejected rows: %v)", desc, w.Kind.Error(), w.File, w.RowNumber, keysOf(rows))}
+				}
+				// a warning kind this harness does not know, about a row that was not injected: it must at
+				// least describe the row it names
+				want = tb.Rows[w.RowNumber-1]
 			}
 			if !sameRow(w.RowContent, want) {
 				return &sim.Violation{Class: "warning", Signature: "C09:warning-wrong-content:" + string(w.File),
